@@ -369,12 +369,28 @@ package desync
 //@   ensures !MockValidate && err == nil ==> $eof
 
 //@ func ChunkStream
-//@   prop C07
+//@   prop C07 C02
 //@   safety none
+//@   requires wfChunker(&c) && len(hashTable) == 256 && (forall b int :: 0 <= b && b < 256 ==> hashTable[b] == tbl(b))
+//@   loop 2: invariant wfChunker(&c) && len(hashTable) == 256 && (forall b int :: 0 <= b && b < 256 ==> hashTable[b] == tbl(b))
 //@   chan in: len(v.b) > 0
 //@   ghost@entry $eof = false
 //@   ghost@after:Next $eof = (len($r1) == 0 && $r2 == nil)
 //@   ensures r1 == nil ==> $eof
+//# C02: jobs are numbered consecutively in the order the chunker produced them and carry what it returned;
+//# every worker records, under the job's number, the job's start, length and the digest of its bytes;
+//# the index lists the recorded rows in number order with the chunker's parameters and the digest flag
+//# of the configured digest
+//@   ghost@entry $fed = 0
+//@   ghost@after:Next $last = $r2
+//@   ghost@after:Next $snap = $r0
+//@   assert@send:in @C02 v.num == $fed && v.num == num && v.start == $snap && len(v.b) > 0
+//@   ghost@afterstmt:num++ $fed = $fed + 1
+//@   loop 2: invariant @C02 $fed == num && num >= 0
+//@   lit 2: assert@before:recordResult @C02 idxChunk.Start == c.start && idxChunk.Size == len(c.b) && idxChunk.ID == H(bytes(c.b))
+//@   loop 3: invariant @C02 0 <= i && forall k int :: 0 <= k && k < i ==> chunks[k] == results[k]
+//@   ensures @C02 r1 == nil ==> r0.Index.ChunkSizeMin == c.min && r0.Index.ChunkSizeAvg == c.avg && r0.Index.ChunkSizeMax == c.max
+//@   ensures @C02 r1 == nil ==> (r0.Index.FeatureFlags & CaFormatSHA512256 != 0 <==> algOf(Digest) == crypto.SHA512_256)
 
 //@ ghost var $sawDone bool
 
@@ -1634,7 +1650,7 @@ package desync
 // position, the hash state is reset between calls, 48 <= min <= avg <= max.
 
 //@ spec func bufOK(c *Chunker) bool = c.start + len(c.buf) == $rd && c.start >= 0 && \
-//@     (forall a int :: inrng(c.buf, a) ==> elem(c.buf, a) == $in[c.start + a - off(c.buf)])
+//@     (forall a int :: inrng(c.buf, a) ==> elem(c.buf, a) == inb(c.start + a - off(c.buf)))
 //@ spec func wfChunker(c *Chunker) bool = 48 <= c.min && c.min <= c.avg && c.avg <= c.max && c.max < 1<<40 && c.hIdx == 0 && c.hValue == 0 && $rd < 1<<62 && len(c.buf) <= 10*c.max && c.hDiscriminator > 0 && bufOK(c)
 
 //@ func (c *Chunker) fillBuffer
@@ -1647,28 +1663,56 @@ package desync
 //@   ensures n == len(c.buf) || old(c.hitEOF)
 //@   ensures old(c.hitEOF) ==> err == nil && n == 0
 //@   loop 1: invariant len(buf) == 10*c.max && off(buf) == 0 && old(len(c.buf)) <= n && n <= len(buf) && c.start + n == $rd && $rd < 1<<62 && c.buf == old(c.buf) && c.start == old(c.start)
-//@   loop 1: invariant forall a int :: 0 <= a && a < n ==> elem(buf, a) == $in[c.start + a]
+//@   loop 1: invariant forall a int :: 0 <= a && a < n ==> elem(buf, a) == inb(c.start + a)
 
 //@ func (c *Chunker) split
 //@   prop C02
 //@   requires 0 <= i && i <= len(c.buf) && c.start + len(c.buf) == $rd && c.start >= 0 && $rd < 1<<62
-//@   requires forall a int :: inrng(c.buf, a) ==> elem(c.buf, a) == $in[c.start + a - off(c.buf)]
+//@   requires forall a int :: inrng(c.buf, a) ==> elem(c.buf, a) == inb(c.start + a - off(c.buf))
 //@   modifies c.buf, c.start, c.hIdx, c.hValue
 //@   ensures r0 == old(c.start) && r1 == old(c.buf[:i]) && r2 == err && c.start == old(c.start) + i && len(c.buf) == old(len(c.buf)) - i
 //@   ensures c.hIdx == 0 && c.hValue == 0 && bufOK(c)
-//@   ensures forall a int :: inrng(r1, a) ==> elem(r1, a) == $in[r0 + a - off(r1)]
+//@   ensures forall a int :: inrng(r1, a) ==> elem(r1, a) == inb(r0 + a - off(r1))
 
 //# Next: the chunk is the next piece of the stream (tiling: it starts where the previous one ended, its bytes
 //# are the stream's bytes at that position, the chunker moves on by its length), no chunk is longer than max,
 //# and a chunk shorter than min is only ever the last one (the reader had hit EOF and the buffer is empty after it).
+//# the rolling hash, defined by what is folded in and rolled: tbl is the byte table, fold the XOR fold of the
+//# first i bytes of the window starting at w, wh(w, p) the value after rolling the window from [w, w+48) up to
+//# [p-48, p). That this recurrence is the 48-term buzhash sum of the window [p-48, p), independent of w, is the
+//# bit-vector lemma rollIdentity.
+//@ spec func tbl(b int) int
+//@ spec func fold(w int, i int) int
+//@ spec func wh(w int, p int) int
+//@ spec func boundary(h int, d int) bool = h % d == d - 1
+//@ axiom fold0: forall w int :: fold(w, 0) == 0
+//@ axiom manual foldS: forall w int, i int :: 0 <= i && i < 48 ==> fold(w, i+1) == fold(w, i) ^ rotl32(tbl(inb(w+i)), 48-i-1)
+//@ axiom wh0: forall w int :: wh(w, w+48) == fold(w, 48)
+//@ axiom manual whS: forall w int, p int :: p >= w+48 ==> wh(w, p+1) == rotl32(wh(w, p), 1) ^ rotl32(tbl(inb(p-48)), 48) ^ tbl(inb(p))
+
 //@ func (c *Chunker) Next
 //@   prop C02
 //@   requires wfChunker(c) && len(hashTable) == 256
+//@   requires forall b int :: 0 <= b && b < 256 ==> hashTable[b] == tbl(b)
 //@   modifies c.buf, c.hitEOF, c.start, c.hIdx, c.hValue, c.hWindow, allmem(uint8), $rd
 //@   ensures r0 == old(c.start) && c.start == r0 + len(r1)
-//@   ensures forall a int :: inrng(r1, a) ==> elem(r1, a) == $in[r0 + a - off(r1)]
+//@   ensures forall a int :: inrng(r1, a) ==> elem(r1, a) == inb(r0 + a - off(r1))
 //@   ensures r2 == nil ==> wfChunker(c)
 //@   ensures r2 == nil ==> len(r1) <= c.max
 //@   ensures r2 == nil && len(r1) < c.min ==> c.hitEOF && len(c.buf) == 0
-//@   loop 1: invariant 0 <= $i && $i <= 48
+//# the cut rule: with w the start of the 48-byte window that ends at min, the chunk ends at the first position
+//# past min whose window hash meets the discriminator; no earlier position does; a chunk that ends elsewhere is
+//# max long or is the end of the stream
+//@   ensures @C02 r2 == nil ==> forall q int :: c.min < q && q < len(r1) ==> !boundary(wh(r0 + c.min - 48, r0 + q), c.hDiscriminator)
+//@   ensures @C02 r2 == nil && c.min < len(r1) && len(r1) < c.max && !(c.hitEOF && len(c.buf) == 0) ==> boundary(wh(r0 + c.min - 48, r0 + len(r1)), c.hDiscriminator)
+//# instances of the defining recurrences, one per iteration (the axioms are not given to the solver wholesale:
+//# each unfolds into the next one)
+//@   use@loop1.iterend foldS(c.start + c.min - 48, $i)
+//@   use@afterstmt:pos++ whS(c.start + c.min - 48, c.start + pos - 1)
+//@   loop 1: invariant 0 <= $i && $i <= 48 && c.hValue == fold(c.start + c.min - 48, $i)
 //@   loop 2: invariant c.min <= pos && pos < m && m <= len(c.buf) && 0 <= c.hIdx && c.hIdx < 48
+//@   loop 2: invariant c.hValue == wh(c.start + c.min - 48, c.start + pos)
+//# the ring buffer holds the 48 stream bytes before pos: the oldest at hIdx, wrapping around
+//@   loop 2: invariant forall j int :: c.hIdx <= j && j < 48 ==> c.hWindow[j] == inb(c.start + pos - 48 + j - c.hIdx)
+//@   loop 2: invariant forall j int :: 0 <= j && j < c.hIdx ==> c.hWindow[j] == inb(c.start + pos - c.hIdx + j)
+//@   loop 2: invariant forall q int :: c.min < q && q <= pos ==> !boundary(wh(c.start + c.min - 48, c.start + q), c.hDiscriminator)
